@@ -92,7 +92,9 @@ func init() {
 					if len(h) > 0 {
 						var sb strings.Builder
 						t0, _ := parseKeyName(pool[0])
-						sb.WriteString(t0.String() + "[1] ")
+						if len(h)%2 == 0 { // (odd histories: the very first instance carries the first announcement, next to --key)
+							sb.WriteString(t0.String() + "[1] ")
+						}
 						for j, ki := range h {
 							tn, minor := parseKeyName(pool[ki])
 							fifth, _ := spellAbove(tn, 5, 0)
@@ -100,10 +102,22 @@ func init() {
 							if minor {
 								q = "m"
 							}
+							// the announcement travels alone or next to other settings of the same instance, in either order
+							kv := "key=" + pool[ki]
+							switch (j*7 + len(h)*3 + ki + pi) % 6 {
+							case 1:
+								kv = "mtr=3/4," + kv
+							case 2:
+								kv = kv + ",bpm=90"
+							case 3:
+								kv = "vel=ff," + kv + ",mtr=6/8"
+							case 4:
+								kv = "txt=x y," + kv
+							}
 							if (j+len(h)+pi)%3 == 0 {
-								sb.WriteString("R[1]{key=" + pool[ki] + "} ")
+								sb.WriteString("R[1]{" + kv + "} ")
 							} else {
-								sb.WriteString(tn.String() + q + "[1]{key=" + pool[ki] + "} ")
+								sb.WriteString(tn.String() + q + "[1]{" + kv + "} ")
 							}
 							sb.WriteString(fifth.String() + "[1] " + tn.String() + q + "[1] ")
 						}
